@@ -10,6 +10,7 @@ import (
 	"go/constant"
 	"go/token"
 	"go/types"
+	"math"
 	"sort"
 	"strings"
 
@@ -176,6 +177,7 @@ func checkC08(w *World, r *Report) {
 	r.Rule("R08.3", "Encode and Decode use the same encoding object", 4)
 	r.Rule("R08.4", "Base85 substitution table covers the forbidden bytes and is inverted by Decode", 1)
 	r.Rule("R08.5", "written-length results are used", 2)
+	r.Rule("R08.6", "advertised expansion ratios are at least the information-theoretic minimum", 8)
 
 	codecs := findCodecs(w)
 	if len(codecs) == 0 {
@@ -289,6 +291,61 @@ func checkC08(w *World, r *Report) {
 
 	c08Base85(w, r)
 	c08WrittenLen(w, r)
+	c08Ratios(w, r, codecs)
+}
+
+// c08Ratios: R08.6 — the advertised expansion ratio cannot be below the
+// information-theoretic minimum 8/log2(radix): size budgets computed from a
+// smaller ratio overrun for almost every input.
+func c08Ratios(w *World, r *Report, codecs []codecInfo) {
+	p := w.Pkg("internal/util/enc")
+	for _, ci := range codecs {
+		key := "codec:" + qualName(ci.Type) + "|ratio"
+		fd := w.Decl(methodOf(ci.Type, "Ratio"))
+		nd := w.Decl(methodOf(ci.Type, "Name"))
+		if fd == nil || nd == nil {
+			r.Undecided("R08.6", key, "-", "Ratio()/Name() not found")
+			continue
+		}
+		var ratio float64 = -1
+		ast.Inspect(fd.Body, func(x ast.Node) bool {
+			if rs, ok := x.(*ast.ReturnStmt); ok && len(rs.Results) == 1 {
+				if v := constVal(p.TypesInfo, rs.Results[0]); v != nil {
+					ratio, _ = constant.Float64Val(constant.ToFloat(v))
+				}
+			}
+			return true
+		})
+		radix := 0
+		if ci.Alphabet != "" {
+			radix = len(ci.Alphabet)
+		} else {
+			ast.Inspect(nd.Body, func(x ast.Node) bool {
+				if rs, ok := x.(*ast.ReturnStmt); ok && len(rs.Results) == 1 {
+					if sname, ok := constStr(p.TypesInfo, rs.Results[0]); ok {
+						n := 0
+						for _, ch := range sname {
+							if ch >= '0' && ch <= '9' {
+								n = n*10 + int(ch-'0')
+							}
+						}
+						radix = n
+						if n == 0 {
+							radix = 256 // raw
+						}
+					}
+				}
+				return true
+			})
+		}
+		if ratio < 0 || radix < 2 {
+			r.Undecided("R08.6", key, w.Pos(fd.Pos()), fmt.Sprintf("ratio %v / radix %d not constant", ratio, radix))
+			continue
+		}
+		min := 8 / math.Log2(float64(radix))
+		r.Check(ratio >= min-1e-9, "R08.6", key, w.Pos(fd.Pos()), fmt.Sprintf("advertised ratio %.4f >= %.4f = 8/log2(%d)", ratio, min, radix),
+			fmt.Sprintf("advertised ratio %.4f is below the minimum expansion %.4f of any radix-%d text encoding: every size budget derived from it overruns", ratio, min, radix))
+	}
 }
 
 func objName(o types.Object) string {
